@@ -286,7 +286,7 @@ def nontrivial(sc):
     return "\no\tfinish\t" in txt and "\no\treturn\t" in txt
 
 
-def run_family(ctx, res, fam, n_quick=900, n_thorough=24000):
+def run_family(ctx, res, fam, n_quick=3000, n_thorough=60000):
     ok, log = C.go_build_conc()
     if not ok:
         res.violation("corr:harness-build", "the scheduling harness does not build against /repo",
